@@ -316,7 +316,8 @@ func (e *auxExpect) auxRun(which int, rounds int) string {
 }
 
 // purityChild serves requests `<seq> <k> <goroutines> P …` on stdin; one reply line per request on stdout:
-//   OK <reply> | FAIL <kind> <hex detail> ; after each request `#done <seq>` is written to stderr.
+//
+//	OK <reply> | FAIL <kind> <hex detail> ; after each request `#done <seq>` is written to stderr.
 func purityChild() {
 	in := bufio.NewReaderSize(os.Stdin, 1<<22)
 	out := bufio.NewWriter(os.Stdout)
